@@ -332,6 +332,11 @@ class MystReferenceResolver(ReferencesResolver):
             # reference to named label; the final node will
             # contain the section name after the label
             docname, labelid, sectname = stddomain.labels.get(target, ("", "", ""))
+            if not docname:
+                # a label without title or caption (e.g. on a paragraph):
+                # the link text is the destination itself, as for a local target
+                docname, labelid = stddomain.anonlabels.get(target, ("", ""))
+                sectname = "#" + node["reftarget"]
             innernode = nodes.inline(sectname, sectname)
 
         if not docname:
